@@ -61,6 +61,10 @@ func classifyChan(ch ssa.Value) (kind string, ctx ssa.Value) {
 			if kind0 == "ctx-done" {
 				return kind0, ctx0
 			}
+			// the timer's channel handed to a helper that waits (g.awaitWake(t.C, c))
+			if kind0 == "timer" {
+				return kind0, nil
+			}
 		}
 	}
 	// timer.C, or a variable that is only ever assigned timer.C or nil
